@@ -124,6 +124,11 @@ def _emit_clause(gen, c, o):
     if m:
         tag = ' // ' + m.group(1).strip()
         c = c[:m.start()]
+    else:
+        m = re.search(r'\s//\s[^\n]*$', c)       # a free-text trailing comment on the last line
+        if m:
+            tag = ' ' + m.group(0).strip()
+            c = c[:m.start()]
     c = c.rstrip().rstrip(',')
     _emit(gen, '        ' + c + ',' + tag, o)
 
